@@ -178,10 +178,16 @@ def h_pipeline_pair(eng, ff):
     names = [["CYS", "CYX", "CYM"][eng.choice(f"name{i}", 3)] for i in range(2)]
     missing = eng.choice("missing_sg", 3)  # 0 none, 1 first, 2 second
     debump, opt = eng.flag("debump"), eng.flag("opt")
-    a_lines = fixtures.peptide_lines(["ALA", "CYS", "ALA"], "A", 1, ter=False)
+    # chain position of the cysteine (first / internal / last residue) and - PARSE only - neutral termini
+    pos = eng.choice("cys_position", 3)
+    neutraln = bool(eng.flag("neutraln")) if ff == "parse" else False
+    neutralc = bool(eng.flag("neutralc")) if ff == "parse" else False
+    seq = ["ALA", "ALA", "ALA"]
+    seq[pos] = "CYS"
+    a_lines = fixtures.peptide_lines(seq, "A", 1, ter=False)
     ref = fixtures.pristine_definition().map["CYS"].map
-    sg = [ref["SG"].x - 3.8, ref["SG"].y, ref["SG"].z]
-    cb = [ref["CB"].x - 3.8, ref["CB"].y, ref["CB"].z]
+    sg = [ref["SG"].x - 3.8 * pos, ref["SG"].y, ref["SG"].z]
+    cb = [ref["CB"].x - 3.8 * pos, ref["CB"].y, ref["CB"].z]
     u = [sg[k] - cb[k] for k in range(3)]
     L = sum(x * x for x in u) ** 0.5
     u = [x / L for x in u]
@@ -201,20 +207,24 @@ def h_pipeline_pair(eng, ff):
                 dw = sum(v[k] * w[k] for k in range(3))
                 x, y, z = (P[k] + 2 * dw * w[k] - v[k] for k in range(3))
             num = int(ln[22:26])
-            if num == 2:
+            if num == pos + 1:
                 ln = ln[:17] + nm + ln[20:]
                 if ln[12:16].strip() == "SG" and missing == ci + 1:
                     continue
             lines.append(ln[:21] + chain + ln[22:30] + f"{x:8.3f}{y:8.3f}{z:8.3f}" + ln[54:])
         lines.append("TER")
+    bm = None
+    aborted = ""
     try:
-        bm, defn = fixtures.prepared(lines)
-        args = fixtures.Args(ff=ff, pka_method=None, debump=debump, opt=opt)
+        bm, defn = fixtures.prepared(lines, neutraln=neutraln, neutralc=neutralc)
+        args = fixtures.Args(ff=ff, pka_method=None, debump=debump, opt=opt, neutraln=neutraln, neutralc=neutralc)
         main.non_trivial(args, bm, None, defn, False)
     except (ValueError, KeyError, TypeError, AttributeError, IndexError) as e:
-        eng.check(True, "loud-failure-tolerated", note=type(e).__name__)
         eng.note(f"names={names} missing={missing}: {type(e).__name__} {str(e)[:60]}")
-        return
+        if not (bm is not None and isinstance(e, ValueError) and "integ" in str(e)):
+            eng.check(True, "loud-failure-tolerated", note=type(e).__name__)
+            return
+        aborted = " (the run then aborted on the non-integral total charge)"  # parameters were assigned: judge them
     cys = [r for r in bm.residues if isinstance(r, aa.CYS)]
     state = [f"{r.name}:{'SS' if r.ss_bonded else '--'}:{r.ffname}:{'HG' if r.has_atom('HG') else 'noHG'}" for r in cys]
     eng.note(f"names={names} missing={missing} debump={debump} opt={opt} -> {state}")
@@ -225,7 +235,7 @@ def h_pipeline_pair(eng, ff):
         eng.check(True, "not-within-limit")
         return
     ok = all(bool(r.ss_bonded) and not r.has_atom("HG") and r.ffname.endswith("CYX") for r in cys) and cys[0].ss_bonded_partner is s1 and cys[1].ss_bonded_partner is s0
-    eng.check(ok, "bridged-pair-through-the-pipeline", note=f"sulfurs {utilities.distance(s0.coords, s1.coords):.2f} A apart in the final structure (input names {names}, SG rebuilt: {missing}) but the residues end as {state}")
+    eng.check(ok, "bridged-pair-through-the-pipeline", note=f"sulfurs {utilities.distance(s0.coords, s1.coords):.2f} A apart in the final structure (input names {names}, SG rebuilt: {missing}, chain position {pos}, neutraln={neutraln}, neutralc={neutralc}) but the residues end as {state}{aborted}")
 
 
 def h_stage_order(eng, ff, pka, ligand):
@@ -264,7 +274,7 @@ def obligations(tier):
         for order in orders:
             tag = "".join(map(str, order))
             obs.append(Obligation(f"bridges-{layout}-n{n}-o{tag}", h_bridges, {"layout": layout, "n": n, "order": list(order)}, group="bridges", time_cap=2400, max_paths=100000))
-    for ff in ("amber",) if tier == "quick" else ("amber", "parse", "charmm"):
+    for ff in ("amber", "parse") if tier == "quick" else ("amber", "parse", "charmm"):
         obs.append(Obligation(f"pipeline-pair-{ff}", h_pipeline_pair, dict(ff=ff), group="pipeline-pair", time_cap=1500))
     for ff, pka, lig in ((0, 0, 0), (1, 1, 0)) if tier == "quick" else [(f, p, l) for f in (0, 1, 2) for p in (0, 1) for l in (0, 1)]:
         obs.append(Obligation(f"stage-order-ff{ff}-pka{pka}-lig{lig}", h_stage_order, dict(ff=ff, pka=pka, ligand=lig), group="stage-order", time_cap=1500, max_paths=100000))
